@@ -759,6 +759,17 @@ func (ex *Exec) invoke(recv Value, m *types.Func, args []Value) Value {
 		ex.inconclusive(fmt.Sprintf("invoke on %T", recv))
 	}
 	if iv.t == nil {
+		if m.Pkg() != nil && strings.HasPrefix(m.Pkg().Path(), "github.com/prometheus/") {
+			// metrics objects are opaque: their methods are no-ops
+			sig := m.Type().(*types.Signature)
+			switch sig.Results().Len() {
+			case 0:
+				return nil
+			case 1:
+				return ex.zero(sig.Results().At(0).Type())
+			}
+			return ex.zero(sig.Results())
+		}
 		ex.goPanic("invalid memory address or nil pointer dereference (nil interface method call " + m.Name() + ")")
 	}
 	fn := ex.ld.prog.LookupMethod(iv.t, m.Pkg(), m.Name())
@@ -1084,6 +1095,20 @@ func (ex *Exec) loadView(p PtrV, want types.Type) Value {
 				return &StrV{b: ex.sliceBytes(s)}
 			case *StrV:
 				return s
+			case StructV:
+				if len(s.f) >= 2 {
+					bp, ok1 := s.f[0].(PtrV)
+					l, ok2 := s.f[1].(*Term)
+					if ok1 && ok2 {
+						n := int(ex.concretize(l, "string header len"))
+						if n == 0 || bp.c == nil {
+							return ex.emptyStr
+						}
+						if bp.c.parent != nil && bp.c.parent.isArray() {
+							return &StrV{b: ex.sliceBytes(SliceV{arr: bp.c.parent, off: bp.c.idx, len: n, cap: n})}
+						}
+					}
+				}
 			}
 		}
 		if sv, ok := v.(*Term); ok {
@@ -1091,6 +1116,21 @@ func (ex *Exec) loadView(p PtrV, want types.Type) Value {
 			if sv.sort.bitWidth() == ws.bitWidth() {
 				return ex.reinterpretScalar(sv, ws)
 			}
+		}
+	case *types.Struct:
+		// string viewed as a header struct{data unsafe.Pointer; len int}: data points at a copy of the bytes
+		if s, ok := v.(*StrV); ok && w.NumFields() == 2 {
+			if len(s.b) == 0 {
+				return StructV{[]Value{PtrV{}, ex.intConst(0)}}
+			}
+			sl := ex.bytesToSlice(s.b, nil)
+			return StructV{[]Value{PtrV{c: ex.kid(sl.arr, 0)}, ex.intConst(len(s.b))}}
+		}
+		if s, ok := v.(SliceV); ok && w.NumFields() == 3 {
+			if s.arr == nil {
+				return StructV{[]Value{PtrV{}, ex.intConst(0), ex.intConst(0)}}
+			}
+			return StructV{[]Value{PtrV{c: ex.kid(s.arr, s.off)}, ex.intConst(s.len), ex.intConst(s.cap)}}
 		}
 	case *types.Slice:
 		switch s := v.(type) {
